@@ -1938,6 +1938,19 @@ static int init_matrix (
 
 	for (i = 0; i < dim; i++)
 	{
+		/* the slots counted for entries that were dropped as zero are free */
+		for (j = uc_inf[i].nzcnt; j < (i + 1 < dim ? uc_inf[i + 1].cbeg : f->uc_freebeg); j++)
+		{
+			ucindx[j] = -1;
+		}
+		for (j = ur_inf[i].nzcnt; j < (i + 1 < dim ? ur_inf[i + 1].rbeg : f->ur_freebeg); j++)
+		{
+			urindx[j] = -1;
+		}
+	}
+
+	for (i = 0; i < dim; i++)
+	{
 		uc_inf[i].nzcnt -= uc_inf[i].cbeg;
 		ur_inf[i].nzcnt -= ur_inf[i].rbeg;
 	}
